@@ -16,9 +16,9 @@ C_Sim   == {NoCount, IntCount(2), IntCount(3), IntCount(12), DecCount(2, 5, 1), 
 
 E_All == 1..118
 Q_None == {}
-Q_Few == {ChargeTok(1), ChargeTok(-2)}
+Q_Few == {ChargeTok(1), ChargeTok(-2), ChargeTokOne(-1)}
 Q_All == {ChargeTok(1), ChargeTok(-1), ChargeTok(2), ChargeTok(-2), ChargeTok(3), ChargeTok(-3),
-          ChargeTok(10), ChargeTok(-12)}
+          ChargeTok(10), ChargeTok(-12), ChargeTokOne(1), ChargeTokOne(-1)}
 P_All == AllPrefixes
 S_All == AllSuffixes
 Bad == {"Xx", "A", "Hx", "Q", "Zz", "Ab", "J", "Nax", "Cc"}
